@@ -40,6 +40,10 @@ Next ==
              \* document must be accepted (the probes after every rewrite of the file are judged like all other probes)
              /\ (IF e.good /\ ~e.ok THEN PrintT(<< "PV", {"C16"}, sc, l, "watch" >>) ELSE TRUE)
              /\ UNCHANGED << sc, npub, lastgood, cnt >>
+        [] e.e = "wlog" ->
+             \* a logger call of the watcher / loader that shows a shared secret of one of the documents (C18)
+             /\ PrintT(<< "PV", {"C18"}, sc, l, "watchlog" >>)
+             /\ UNCHANGED << sc, npub, lastgood, cnt >>
         [] e.e = "burst" ->
              \* every document of a burst is good: Reload!Load x docs then Reload!Install x docs (PipelineExact:
              \* ninst + Len(chan) = Len(published)); the probes that follow are judged against Fresh(last)
